@@ -115,14 +115,17 @@ def nEmptied : List Ev → Nat
 def nDeliverBy : List Ev → Nat → Nat
   | [], _ => 0
   | .deliver k' _ _ :: h, k => nDeliverBy h k + (if k' = k then 1 else 0)
+  | .joined k' :: h, k => if k' = k then 0 else nDeliverBy h k
   | _ :: h, k => nDeliverBy h k
 def nFinBy : List Ev → Nat → Nat
   | [], _ => 0
   | .finOk k' _ :: h, k => nFinBy h k + (if k' = k then 1 else 0)
+  | .joined k' :: h, k => if k' = k then 0 else nFinBy h k
   | _ :: h, k => nFinBy h k
 def nReqBy : List Ev → Nat → Nat
   | [], _ => 0
   | .reqOk k' _ _ :: h, k => nReqBy h k + (if k' = k then 1 else 0)
+  | .joined k' :: h, k => if k' = k then 0 else nReqBy h k
   | _ :: h, k => nReqBy h k
 
 /-- removed for good: finished, emptied, sampled out, dropped by an ephemeral queue -/
